@@ -1066,6 +1066,7 @@ class DiskRefsContainer(RefsContainer):
             return
 
         path = os.path.join(self.path, b"packed-refs")
+        skipped: set[Ref] = set()
 
         try:
             with GitFile(path, "wb") as f:
@@ -1076,6 +1077,16 @@ class DiskRefsContainer(RefsContainer):
                     # sanity check
                     if ref == HEADREF:
                         raise ValueError("cannot pack HEAD")
+
+                    if unless_changed and target is not None:
+                        # The value was read before we took the lock; the
+                        # ref may have been updated or deleted since.
+                        current = self.read_loose_ref(ref)
+                        if current is None:
+                            current = packed_refs.get(ref)
+                        if current != target:
+                            skipped.add(ref)
+                            continue
 
                     if target is not None:
                         packed_refs[ref] = target
@@ -1088,7 +1099,8 @@ class DiskRefsContainer(RefsContainer):
             # loose refs it supersedes: if we are interrupted in between, the
             # loose refs still take precedence and nothing is lost.
             for ref, target in new_refs.items():
-                self._remove_superseded_loose_ref(ref, target, unless_changed)
+                if ref not in skipped:
+                    self._remove_superseded_loose_ref(ref, target, unless_changed)
         finally:
             # Do not stat the path and associate that identity with the data
             # just written: another writer can replace packed-refs after the
